@@ -182,11 +182,14 @@ def cases(tier, rng):
         yield case_line('z.show', z, 0)
         yield case_line('z.show', z, 1)
         yield case_line('z.fromutc', off, naive(t, f))
+        yield case_line('z.mk', off, naive(t, f))
+        yield case_line('z.pfromlocal', off, naive(t, f))
         # the wall clock as a local input (when it is a nominal NaiveDateTime), and the UTC reading as one
         yield case_line('z.fromlocal', off, naive(t, f))
         w = t + off
         if TMIN <= w <= TMAX:
             yield case_line('z.fromlocal', off, naive(w, f))
+            yield case_line('z.pfromlocal', off, naive(w, f))
     # conversions between zones
     for (t, f, off) in end_z[::7] + mid_z[::5]:
         for off2 in (0, 1, -3600, 86399, -86399, 19800):
@@ -267,9 +270,9 @@ def cases(tier, rng):
             off = rand_off(rng)
             k = rng.random()
             t = rand_instant(rng)
-            yield case_line('z.fromlocal', off, naive(t, rand_frac(rng)))
+            yield case_line(rng.choice(['z.fromlocal', 'z.fromlocal', 'z.pfromlocal']), off, naive(t, rand_frac(rng)))
         elif r < 0.35:
-            yield case_line('z.fromutc', rand_off(rng), naive(rand_instant(rng), rand_frac(rng)))
+            yield case_line(rng.choice(['z.fromutc', 'z.mk']), rand_off(rng), naive(rand_instant(rng), rand_frac(rng)))
         elif r < 0.4:
             yield case_line('z.withtz', z, rand_off(rng))
         elif r < 0.6:
